@@ -475,7 +475,7 @@ func (s *Session) ReleaseHandler(n int) {
 	for i := 0; i < n; i++ {
 		select {
 		case g <- struct{}{}:
-		case <-time.After(2 * time.Second):
+		case <-time.After(150 * time.Millisecond):
 			return
 		}
 	}
